@@ -28,17 +28,16 @@ specification side follows RFC 3986 + RFC 6901 in the raw JSON (`stepSpec`). Thi
   * whole-file reference: the value is set, `unvisitRef` deferred, the children are walked in the moved context
     (a path item file that is itself a reference is resolved first, 376b90f);
   * fragment reference: recursive resolve of the target (a local copy when the target is itself a reference) in
-    ITS context — path items only `if resolved.Ref != ""` —; the sentinel `errMUST<own kind>` coming out of that
-    call (a null member anywhere below, not across a document load) is SWALLOWED by the nine component routines:
-    `return nil` before `unvisitRef` is deferred, the component stays without value, the key stays in progress;
+    ITS context — path items only `if resolved.Ref != ""` —; an error coming out of that call is returned (the
+    sentinel `errMUST<own kind>` is swallowed only for an empty copy, 3c3716e: the `#` case above);
   * `component.Value = …`, `defer unvisitRef`, then the walk of the value's children: in the REFERRING context for
     the nine component kinds, in the TARGET's context for path items; an error in that walk still runs the deferred
     `unvisitRef` (the callbacks fire) before it is returned;
   * `unvisitRef`: with a non-nil value the callbacks registered under this key are run; with a nil value they are
     dropped (#34; counted in `nnil`).
-Errors carry the loader state they leave behind: a Loader that is used again keeps its documents cache (and the
-objects in it, resolved as far as the failed load got); every entry point resets the in-progress set and the
-backtrack table (`loadEntry`, table `Gen.loaderEntries`).
+Errors carry the loader state they leave behind; every entry point resets the in-progress set, the backtrack table
+and (c555d93) the documents cache (`loadEntry`, entry rows of `Gen.resolverSkeleton`): a load on a used Loader is
+the load of a fresh one.
 Fuel measures nesting depth only (`foldRes` iterates siblings with the same fuel); `Lemmas/C02Term.lean`
 proves an explicit bound under which `outOfFuel` cannot occur.
 -/
@@ -90,20 +89,17 @@ structure World where
 def World.node (w : World) (o : Obj) : Option Node := w.nodes[o]?
 
 structure St where
-  value   : List (Obj × Obj) := []    -- reference object ↦ the value object it was given          (kept by the Loader)
-  docs    : List Loc := []            -- visitedDocuments                                          (kept by the Loader)
+  value   : List (Obj × Obj) := []    -- reference object ↦ the value object it was given
+  docs    : List Loc := []            -- visitedDocuments                                          (reset by every entry point, c555d93)
   inprog  : List Nat := []            -- visitedRefs (keys)                                        (reset by every entry point)
   pending : List (Nat × Obj) := []    -- backtrack callbacks (key, component)                      (reset by every entry point)
-  old     : List Loc := []            -- documents that were in the cache when this load began
   foreign : Bool := false             -- some reference was evaluated in a context that is not its home
   tclash  : Bool := false             -- some callback fired for a reference whose own one-step target differs from the visitor's (#29)
-  stale   : Bool := false             -- this load met a document cached by an earlier load of the same Loader
   done    : List Obj := []            -- objects whose resolver call has returned nil (instrumentation only)
   walking : List Obj := []            -- values that have been assigned and whose children are being walked (instrumentation only)
   nback   : Nat := 0                  -- callbacks ever registered (instrumentation only)
   nnil    : Nat := 0                  -- `unvisitRef` calls with a nil value (instrumentation only)
   nempty  : Nat := 0                  -- swallowed `errMUST…` of an empty TARGET (`#`) (instrumentation only)
-  nswallow : Nat := 0                 -- swallowed `errMUST…` raised by a null member below the target (instrumentation only)
   deriving Repr
 
 def St.get (s : St) (o : Obj) : Option Obj := (s.value.find? (·.1 = o)).map (·.2)
@@ -166,12 +162,12 @@ def wrapErr : Res → Res
   | r => r
 
 /-- `loadFromDataWithPathInternal`: a document not yet in `visitedDocuments` is registered and walked; a cached
-    one is returned as it is (`stale`: it was cached by an EARLIER load) -/
+    one is returned as it is -/
 def loadDoc (w : World) (rs : Loc → Nat → St → Res) (d : Option Loc) (s : St) : Res :=
   match d with
   | none => .ok s
   | some l =>
-    if s.docs.contains l then .ok { s with stale := s.stale || s.old.contains l }
+    if s.docs.contains l then .ok s
     else wrapErr (foldRes (rs l) (w.roots l) { s with docs := s.docs ++ [l] })
 
 /-- the deferred `unvisitRef` runs also when the walk of the children failed -/
@@ -195,14 +191,13 @@ def markDone (o : Obj) : Res → Res
   | .ok s => .ok { s with done := s.done ++ [o] }
   | e => e
 
-/-- the recursive call on the local copy / the loaded element, when the routine makes one (`pre`); the nine
-    component routines swallow `errMUST<own kind>` coming out of it (`swallows`) -/
-def preResolve (pre swallows : Bool) (k : Kind) (o : Obj) (r : Unit → Res) (s2 : St) (cont : St → Res) : Res :=
+/-- the recursive call on the local copy / the loaded element, when the routine makes one (`pre`). An error coming
+    out of it is returned: since 3c3716e the nine component routines swallow `errMUST<own kind>` only when the copy
+    ITSELF is empty (`&& resolved.isEmpty()`: the `emptyTarget` case, decided before) -/
+def preResolve (pre : Bool) (r : Unit → Res) (s2 : St) (cont : St → Res) : Res :=
   if pre then
     match r () with
     | .ok s3 => cont s3
-    | .err (some k') s3 =>
-      if swallows && k' == k then markDone o (.ok { s3 with nswallow := s3.nswallow + 1 }) else .err (some k') s3
     | e => e
   else cont s2
 
@@ -242,7 +237,7 @@ def resolve (w : World) : Nat → Loc → Obj → St → Res
                   -- the children of the value are walked in the referring context by the fragment branch of the
                   -- nine component routines, in the target's context otherwise
                   let wcx := if frag && !isPI then cx else cx'
-                  preResolve pre (!isPI) n.kind o (fun _ => resolve w fuel cx' tgt s2) s2 (fun s3 =>
+                  preResolve pre (fun _ => resolve w fuel cx' tgt s2) s2 (fun s3 =>
                     markDone o (finish w (fun k s => resolve w fuel wcx k s) (key n.kind t) t (some (cx', tgt)) o
                       (valueOf w tgt s3) s3))
           | e => e
@@ -261,18 +256,19 @@ structure Entry where
   /-- the entry point calls `resetVisitedPathItemRefs()` first (all of them do: table `Gen.loaderEntries`) -/
   resets  : Bool := true
 
-/-- `resetVisitedPathItemRefs()`: what a load starts with — the Loader keeps the documents cache and the objects
-    in it; the in-progress set, the backtrack table (and the per-load instrumentation) start empty -/
-def St.reset (s : St) : St := { value := s.value, docs := s.docs, old := s.docs }
+/-- `resetVisitedPathItemRefs()`: what a load starts with — the in-progress set, the backtrack table and (c555d93) the
+    documents cache are emptied; the documents are read and decoded anew, so nothing of the objects of an earlier load
+    takes part either -/
+def St.reset (_ : St) : St := {}
 
 /-- … and what it would start with without the reset -/
-def St.noReset (s : St) : St := { s.reset with inprog := s.inprog, pending := s.pending }
+def St.noReset (s : St) : St := { value := s.value, docs := s.docs, inprog := s.inprog, pending := s.pending }
 
 def loadEntry (w : World) (fuel : Nat) (e : Entry) (s : St) : Res :=
   let s0 := if e.resets then s.reset else s.noReset
   if e.located then
     -- loadFromDataWithPathInternal: a root that is in the cache is returned as it is
-    if s0.docs.contains e.root then .ok { s0 with stale := true }
+    if s0.docs.contains e.root then .ok s0
     else foldRes (fun k s => resolve w fuel e.root k s) (w.roots e.root) { s0 with docs := s0.docs ++ [e.root] }
   else foldRes (fun k s => resolve w fuel e.root k s) (w.roots e.root) s0
 
